@@ -206,7 +206,7 @@ func runFSO(cfg config) {
 		um := r.pick2([]int{0o22, 0o22, 0, 0o77, 0o27})
 		hdr := fmt.Sprintf("memfs linux %d md5", um)
 		w := newFSWorld("memfs", "linux", um)
-		g := &fsGen{r: r, w: w, admin: mode != "dac", nviews: 1, single: true, clean: true, noEval: true, dac: mode == "dac"}
+		g := &fsGen{r: r, w: w, admin: mode != "dac", nviews: 1, single: true, clean: true, noEval: mode != "sym", dac: mode == "dac"}
 		if mode == "sym" {
 			g.links = 3
 		}
@@ -345,6 +345,9 @@ func inUniverse(op string) bool {
 		return true
 	default:
 		paths = []string{untok(t[2])}
+	}
+	if t[0] == "ES" && !strings.HasPrefix(untok(t[2]), "/") {
+		return false // filepath.EvalSymlinks keeps a relative argument relative, MemFS answers with an absolute path
 	}
 	for _, p := range paths {
 		if p == "" {
